@@ -1296,6 +1296,16 @@ func (m *Manager) Unlock(ns walletdb.ReadBucket, passphrase []byte) error {
 				ns, info.managedAddr.InternalAccount(),
 				info.branch, info.index, true,
 			)
+
+			// The account of the address may only have existed
+			// within a database transaction that was rolled back
+			// (an account import dry run), there is nothing to
+			// derive then.
+			if IsError(err, ErrAccountNotFound) {
+				manager.deriveOnUnlock[0] = nil
+				manager.deriveOnUnlock = manager.deriveOnUnlock[1:]
+				continue
+			}
 			if err != nil {
 				m.lock()
 				return err
